@@ -108,8 +108,7 @@ package fsnotify
 
 //@ func (w *inotify) remove(name string) (err error)
 //@   local wds []uint32
-//@   requires token(sawOpen)
-//@   ensures token(sawOpen)
+//@   requires token(sawOpen)                  [C14 C13 C06] "only an operation that has seen the Watcher open goes on to use its descriptor"
 //@   mode modeA: !enableRecurse
 //@   requires held(shared.mu) && !held(inotify.cookiesMu) && Wf(w) && TablesInv(w.watches)
 //@   requires forall(k, uint32, has(w.watches.wd, k) ==> has(K, k) || has(Pending, k))
@@ -138,8 +137,7 @@ package fsnotify
 // register (with updatePath and the closure inlined). k is the kernel's answer
 // (ghost lastWd, set by the assumed contract of inotify_add_watch).
 //@ func (w *inotify) register(path string, flags uint32, recurse bool) (err error)
-//@   requires token(sawOpen)
-//@   ensures token(sawOpen)
+//@   requires token(sawOpen)                  [C14 C13 C06] "only an operation that has seen the Watcher open goes on to use its descriptor"
 //@   mode modeA: !enableRecurse
 //@   requires held(shared.mu) && !held(inotify.cookiesMu) && Wf(w) && TablesInv(w.watches) && KInv(w.watches)
 //@   requires filepath.Clean(path) == path                                                         [C04 C08]
@@ -222,8 +220,7 @@ package fsnotify
 //@ fun kparentWatched(wd uint32) bool
 
 //@ func (w *inotify) handleEvent(inEvent *unix.InotifyEvent, buf *[65536]byte, offset uint32) (ev Event, ok bool)
-//@   requires token(sawOpen)
-//@   ensures token(sawOpen)
+//@   requires token(sawOpen)                  [C14 C13 C06] "only an operation that has seen the Watcher open goes on to use its descriptor"
 //@   mode modeA: !enableRecurse
 //@   requires token(reader) && nolocks() && Wf(w) && RingInv(w) && inEvent != nil && buf != nil
 //@   requires !closed(w.Errors) && !closed(w.Events)
